@@ -237,6 +237,11 @@ def lk_try(ctx, flavours):
             if not acq:
                 continue
             bad = ['%s at %s' % (t['callee'].split('::')[-1], t['sp']) for bi, t in acq if t['callee'] in TRY]
+            if bad and b['impl_trait'] == 'std::iter::Iterator' and b['name'] == 'size_hint':
+                # advisory by contract: an under-informed hint (what a failed try produces) is a valid hint, and a hint is never
+                # part of an operation's result; what the hint may compute with is IT3's business
+                out.append(Obl('LK-TRY', b['q'], b['span'], 'size_hint may decline to wait (advisory value)', True, 'non-blocking acquisition in an advisory method: ' + ', '.join(bad)))
+                continue
             out.append(Obl('LK-TRY', b['q'], b['span'], 'every acquisition waits for the lock (%d acquisition sites)' % len(acq), not bad,
                            'blocking acquisitions only' if not bad else 'non-blocking acquisition whose failure becomes a result: ' + ', '.join(bad)))
     return out
@@ -345,6 +350,8 @@ def it2(ctx, flavours):
                     for s in bb['stmts']:
                         if s['k'] == 'assign' and s['dst']['p'] and s['dst']['p'][-1].split(':')[0] == '.' + pos_f[0] and strip_payload(pv.of_local(s['dst']['l'])) == ('param', 1):
                             stores.append((bi, s))
+                        elif s['k'] == 'assign' and s['dst']['p'] == ['*'] and strip_payload(pv.of_local(s['dst']['l'])) == POS:
+                            stores.append((bi, s))      # through a `&mut self.position` (captured by a spliced closure)
                 if len(stores) != 1:
                     why.append('%d stores to position (expected one increment)' % len(stores))
                 else:
